@@ -154,7 +154,15 @@ func runC01(c *Ctx) {
 	R.Analysed["element_allow_atoms"] = descr
 	G := orAtoms(allow)
 	for _, arm := range tagArms {
-		q, err := sc.armQuery(arm, G)
+		// the verdict of a scan may reach the write through the result variable of an inlined helper: the atoms such
+		// flags are computed from are tracked too
+		extra := []*pa.F{G}
+		if a := sc.S.Arms[arm]; a != nil {
+			for _, k := range sc.A.FlagSupport(a.Blocks, 6) {
+				extra = append(extra, pa.AtomF(k))
+			}
+		}
+		q, err := sc.armQuery(arm, extra...)
 		if err != nil {
 			R.Unknown("C01.R2", "arm:"+arm, arm, "", err.Error())
 			continue
